@@ -1,4 +1,5 @@
 import Verif.Proofs.Text
+import Verif.Proofs.TextBytes
 /-!
 C17 — Textual and byte encodings of numbers round-trip.
 
@@ -83,13 +84,42 @@ theorem bytes_nil_iff (t : NumTy) (b : List UInt8) :
 example : fromBigEndianBytes .int16 [1, 2, 3] = none ∧ fromBigEndianBytes .int16 [0xff] = some 255
     ∧ fromBigEndianBytes .int [1, 2, 3] = some 66051 := by decide
 
-/-- Full statement: `∀ T x, T.inRange x → fromBigEndianBytes T (toBigEndianBytes T x) = some x`.
-    Proved for the 16 types read through `padWithZeroes` (8..64-bit integers and words, all four
-    fixed-point types). -/
-theorem bytes_roundtrip_partial (t : NumTy) (hb : t.bits ≠ 0) (hp : t.bits ≤ 64 ∨ t.fixed = true) (x : Int)
-    (h : t.inRange x) : fromBigEndianBytes t (toBigEndianBytes t x) = some x :=
-  bytes_roundtrip_padded t hb hp x h
+/-- **Byte round trip, all 24 types**: `T.fromBigEndianBytes(x.toBigEndianBytes()) = x` for every `x` of
+    `T`.  The 8..64-bit integers and words and the four fixed-point types are written as fixed-width
+    two's complement and read back through `padWithZeroes`; `Int` / `UInt` are written in the minimal
+    signed / unsigned form (`values.SignedBigIntToBigEndianBytes`: complemented magnitude of `-x-1`, a
+    sign byte added when the top bit would lie) and read by `BigEndianBytesToSignedBigInt` /
+    `SetBytes`; the 128/256-bit integers and words are written at fixed width and read by the same
+    unpadded readers. -/
+theorem bytes_roundtrip (t : NumTy) (x : Int) (h : t.inRange x) :
+    fromBigEndianBytes t (toBigEndianBytes t x) = some x := by
+  have pad : ∀ (u : NumTy), u.bits ≠ 0 → (u.bits ≤ 64 ∨ u.fixed = true) → u.inRange x →
+      fromBigEndianBytes u (toBigEndianBytes u x) = some x := fun u hb hp hu => bytes_roundtrip_padded u hb hp x hu
+  cases t
+  case int => exact roundtrip_int x
+  case uint => exact roundtrip_uint x (unsigned_nonneg .uint rfl x h)
+  case int128 =>
+    simp [NumTy.inRange, NumTy.belowMin, NumTy.aboveMax, NumTy.minRaw, NumTy.maxRaw, NumTy.signed, NumTy.kind, NumTy.bits] at h
+    exact roundtrip_sbig .int128 16 rfl rfl (by omega) (by decide) rfl x (by omega) (by omega)
+  case int256 =>
+    simp [NumTy.inRange, NumTy.belowMin, NumTy.aboveMax, NumTy.minRaw, NumTy.maxRaw, NumTy.signed, NumTy.kind, NumTy.bits] at h
+    exact roundtrip_sbig .int256 32 rfl rfl (by omega) (by decide) rfl x (by omega) (by omega)
+  case uint128 =>
+    simp [NumTy.inRange, NumTy.belowMin, NumTy.aboveMax, NumTy.minRaw, NumTy.maxRaw, NumTy.signed, NumTy.kind, NumTy.bits] at h
+    exact roundtrip_ubig .uint128 16 rfl rfl (by decide) (by decide) rfl x (by omega) (by omega)
+  case uint256 =>
+    simp [NumTy.inRange, NumTy.belowMin, NumTy.aboveMax, NumTy.minRaw, NumTy.maxRaw, NumTy.signed, NumTy.kind, NumTy.bits] at h
+    exact roundtrip_ubig .uint256 32 rfl rfl (by decide) (by decide) rfl x (by omega) (by omega)
+  case word128 =>
+    simp [NumTy.inRange, NumTy.belowMin, NumTy.aboveMax, NumTy.minRaw, NumTy.maxRaw, NumTy.signed, NumTy.kind, NumTy.bits] at h
+    exact roundtrip_ubig .word128 16 rfl rfl (by decide) (by decide) rfl x (by omega) (by omega)
+  case word256 =>
+    simp [NumTy.inRange, NumTy.belowMin, NumTy.aboveMax, NumTy.minRaw, NumTy.maxRaw, NumTy.signed, NumTy.kind, NumTy.bits] at h
+    exact roundtrip_ubig .word256 32 rfl rfl (by decide) (by decide) rfl x (by omega) (by omega)
+  all_goals exact pad _ (by decide) (by decide) h
 
+example : NumTy.int.inRange (-129) ∧ NumTy.int256.inRange (-(2 ^ 255)) ∧ NumTy.word256.inRange (2 ^ 256 - 1) ∧
+    fromBigEndianBytes .int [0xff, 0x7f] = some (-129) ∧ fromBigEndianBytes .int [0x00, 0x80] = some 128 := by decide
 example : toBigEndianBytes .int16 (-2) = [0xff, 0xfe] ∧ fromBigEndianBytes .int16 [0xff, 0xfe] = some (-2) := by decide
 example : fromBigEndianBytes .int128 (toBigEndianBytes .int128 (-(2 ^ 127))) = some (-(2 ^ 127)) := by decide
 
